@@ -144,6 +144,18 @@ def create (x : Res Rat) (y : Nat → Res Rat) (nTweak nFlags : Nat) : Res Filte
   let k ← hashFuncs yv
   pure { vData := List.replicate n 0, nHashFuncs := k, nTweak := nTweak, nFlags := nFlags }
 
+/-- `CBloomFilter(nElements, nFPRate, nTweak, nFlags)` with its arguments: which exception arises is
+    decided here; only the *values* of `math.log(nFPRate)` (`logRate`, read when `rate > 0`) and of the
+    float constants `1/LN2SQUARED`, `LN2` are parameters.  Python evaluates
+    `-1 / LN2SQUARED * nElements * math.log(nFPRate)` left to right, so `math.log` (ValueError for a
+    rate ≤ 0) comes before everything else; `len(vData) * 8 / nElements` divides by zero afterwards. -/
+def createPy (nElements : Int) (rate logRate invLn2Sq ln2 : Rat) (nTweak nFlags : Nat) : Res Filter :=
+  create
+    (if rate ≤ 0 then .error .valueerr else .ok (-invLn2Sq * (nElements : Rat) * logRate))
+    (fun n => if nElements = 0 then .error zeroDivisionError
+              else .ok (((n : Int) : Rat) * 8 / (nElements : Rat) * ln2))
+    nTweak nFlags
+
 /-- `bloom_hash` -/
 def bloomHash (f : Filter) (nHashNum : Nat) (e : Bytes) : Res Nat := do
   let h ← murmurHash3 ((nHashNum * 0xFBA4C795 + f.nTweak) &&& 0xFFFFFFFF) e
